@@ -621,6 +621,9 @@ theorem parseR6rsChar_safe (fuel : Nat) (s : St) :
 theorem asChar_safe (n : Nat) (s : St) : Safe (asChar n) s (fun _ _ => True) := by
   unfold asChar; safe_run; safe_fin
 
+theorem asEscapedChar_safe (n : Nat) (s : St) : Safe (asEscapedChar n) s (fun _ _ => True) := by
+  unfold asEscapedChar; safe_run; safe_fin
+
 theorem decodeElispCharEscape_safe (fuel : Nat) (s : St) :
     Safe (decodeElispCharEscape fuel) s (fun _ _ => True) := by
   unfold decodeElispCharEscape; safe_run
